@@ -281,6 +281,37 @@ pub fn check<S: Src>(s: &mut S) {
     assert!(r.v.0 == wop(1, a, b), "add-value");
 }
 """)
+    add("ops|lifetime-a-unary-assign", "Neg and AddAssign on a generic type with a lifetime parameter called 'a (and type parameters called T and Rhs)",
+        """
+#[derive(Clone, Copy)]
+pub struct U<'a>(pub ::core::marker::PhantomData<&'a ()>);
+impl<'a> ::core::ops::Neg for U<'a> { type Output = U<'a>; fn neg(self) -> U<'a> { self } }
+impl<'a, 'b> ::core::ops::Neg for &'b U<'a> { type Output = U<'a>; fn neg(self) -> U<'a> { *self } }
+impl<'a> ::core::ops::AddAssign for U<'a> { fn add_assign(&mut self, _: U<'a>) {} }
+impl<'a, 'b> ::core::ops::AddAssign<&'b U<'a>> for U<'a> { fn add_assign(&mut self, _: &'b U<'a>) {} }
+pub struct Q(pub u8);
+impl ::core::ops::AddAssign for Q { fn add_assign(&mut self, r: Q) { self.0 = crate::support::wop(2, self.0, r.0) } }
+impl<'x> ::core::ops::AddAssign<&'x Q> for Q { fn add_assign(&mut self, r: &'x Q) { self.0 = crate::support::wop(2, self.0, r.0) } }
+#[derive_ex(Neg)]
+pub struct N1<'a, T> { pub v: T, pub u: U<'a> }
+#[derive_ex(AddAssign)]
+pub struct T2<'a, Rhs> { pub v: Rhs, pub u: U<'a> }
+""", """
+pub fn check<S: Src>(s: &mut S) {
+    let (a, b) = (s.u8(), s.u8());
+    let r = -N1 { v: Evil(a), u: U(core::marker::PhantomData) };
+    assert!(r.v.0 == wop(40, a, 0), "neg-value");
+    let t = N1 { v: Evil(b), u: U(core::marker::PhantomData) };
+    let r2 = -&t;
+    assert!(r2.v.0 == wop(40, b, 0) && t.v.0 == b, "neg-ref");
+    let mut x = T2 { v: Q(a), u: U(core::marker::PhantomData) };
+    x += T2 { v: Q(b), u: U(core::marker::PhantomData) };
+    assert!(x.v.0 == wop(2, a, b), "add-assign-value");
+    let y = T2 { v: Q(b), u: U(core::marker::PhantomData) };
+    x += &y;
+    assert!(x.v.0 == wop(2, wop(2, a, b), b) && y.v.0 == b, "add-assign-ref");
+}
+""")
     add("eq|shadowed-Eq-and-Fn", "Eq and by = ... with `Eq` and `Fn` shadowed at the use site",
         """
 #[derive_ex(PartialEq, Eq, PartialOrd, Ord)]
